@@ -19,7 +19,7 @@ from mc.lib import hydraulics, simdata
 ID = 'C18'
 LEVEL = 'exploration'
 RULE = (
-    'Function level: every combination of 6 parameter sets (spline and '
+    'Function level: every combination of 7 parameter sets (spline and '
     'PEATCLSM specific yield x spline and PEATCLSM transmissivity; '
     'thorough: all 77 pairs of 11 specific-yield sets and 7 transmissivity '
     'sets) x (ET, '
@@ -47,7 +47,8 @@ ASSUMPTIONS = [
 ]
 PARAMS = [('inside', 'field'), ('seven-knots', 'five-knots'),
           ('straddle-top', 'two-knots'), ('published', 'published-high'),
-          ('corner', 'other'), ('inside', 'other')]
+          ('corner', 'other'), ('inside', 'other'),
+          ('integer-knots', 'integer')]
 GRIDS = {
     'data-range': [15.5, 17.0, 18.25, 19.0, 22.5, 27.0],
     'across-knots': [-40.0, -5.5, 0.0, 14.0, 16.0, 24.0, 36.0],
